@@ -469,6 +469,9 @@ Definition bin_arr (op : binop) (xs : list loc) (r : loc) : M loc :=
           if n <? 0 then fail (EPanic PkBadRepetition)
           else if max_alloc <? Z.of_nat (List.length xs) * n then fail (ENeedOracle (s_ "huge allocation"))
           else
+            (* for xs = [] the result is the empty array whatever n is (n empty parts); Go returns it without
+               looping since f173496 - same value, so the definition is unchanged (the model just takes long for
+               huge n there: such cases are answered by the harness's model time limit and counted as skipped) *)
             let* d := depth_fuel in
             let* parts := mapM (fun _ => mapM (deep_copy d) xs) (repeat tt (Z.to_nat n)) in
             alloc (HArr (List.concat parts))
